@@ -228,6 +228,9 @@ def _literal_str_dict(e):
 def prep(ctx, fi):
     """FuncInfo over an explicit-form copy of the function (P1-P4 above); the model itself is left untouched."""
     fnode = copy.deepcopy(fi.node)
+    # P0 a method turned into a @staticmethod keeps the positions the rules use: a placeholder stands for the receiver
+    if fi.cls is not None and any(u(d) == 'staticmethod' for d in fnode.decorator_list):
+        fnode.args.args.insert(0, ast.arg(arg='__receiver__'))
     # P1 alias locals
     changed = True
     while changed:
@@ -936,7 +939,13 @@ def check(ctx):
     rep.add('H6', f_ld.site(cst), 'the collection is built on the opened file', [u(a) for a in ctor[0].args] == [fh], expected=f'HDF5Signatures({fh})', found=u(ctor[0]), stmt='constructor operand')
     # constructor: marker test first, raising SignaturesFileError
     first_raise = next((s for s in stmts_in(f_init.node.body) if isinstance(s, ast.Raise)), None)
-    loads_before = [n for (k, form, n) in r_core if form == 'raising' and first_raise is not None and n.lineno < first_raise.lineno]
+    # statement ORDER, not line numbers: statements of an expanded helper keep the helper's own line numbers
+    _seq = list(stmts_in(f_init.node.body))
+
+    def _pos(node):
+        return next((i for i, s_ in enumerate(_seq) if any(x is node for x in ast.walk(s_)) and not isinstance(s_, (ast.If, ast.For, ast.While, ast.With, ast.Try))),
+                    next((i for i, s_ in enumerate(_seq) if any(x is node for x in ast.walk(s_))), len(_seq)))
+    loads_before = [n for (k, form, n) in r_core if form == 'raising' and first_raise is not None and _pos(n) < _pos(first_raise)]
     okfr = first_raise is not None and (raised_name(first_raise) or '').endswith('SignaturesFileError') and any(a[0] == 'notin' and a[2] == f'{g_in}.attrs' for a in path_atoms(gmi[first_raise])) and not loads_before
     rep.add('H6', f_init.site(first_raise), 'the constructor refuses a group without the marker with SignaturesFileError before any other read', okfr, expected='if FMT_VERSION_ATTR not in group.attrs: raise SignaturesFileError',
             found=u(first_raise)[:70] if first_raise is not None else None, stmt='constructor marker')
